@@ -15,7 +15,7 @@ only = sys.argv[1:]
 for d in src_dirs:
     base = os.path.basename(os.path.dirname(d)).split('_')[0]
     prop = base[:3]
-    rnd = {'b': 'r2', 'c': 'r3', 'd': 'r4', 'e': 'r5', 'f': 'r6'}.get(base[3:], '')
+    rnd = {'b': 'r2', 'c': 'r3', 'd': 'r4', 'e': 'r5', 'f': 'r6', 'g': 'r7'}.get(base[3:], '')
     name = '%s-%s%s' % (prop, rnd, os.path.basename(d))
     if only and name not in only:
         continue
